@@ -138,3 +138,20 @@ Definition ex8 : pairspec :=
   (((POth "common"), "Tiny"), DBasic BInt8);
   (((POth "common"), "Money"), DStruct [{| sf_name := "Units"; sf_emb := false; sf_ty := (TBasic BInt64); sf_tag := "" |}; {| sf_name := "Cur"; sf_emb := false; sf_ty := (TBasic BString); sf_tag := "" |}])] in let FN : list mfunc := [{| mf_name := "F0"; mf_param := (TBasic BString); mf_result := (TBasic BInt8) |}; {| mf_name := "F1"; mf_param := (TBasic BString); mf_result := (TBasic BInt8) |}] in {| ps_env := E; ps_fuel := 11; ps_jobs := [{| j_env := E; j_fuel := 11; j_src := "T"; j_dst := "T"; j_funcs := FN; j_ic := false; j_src_acc := []; j_dst_acc := [{| ac_name := "Ratio"; ac_ty := (TBasic BInt8); ac_set := false; ac_path := ["ratio"] |}; {| ac_name := "SetRatio"; ac_ty := (TBasic BInt8); ac_set := true; ac_path := ["ratio"] |}]; j_src_ctor := []; j_dst_ctor := [{| cp_field := "ratio"; cp_path := ["ratio"]; cp_ty := (TBasic BInt8) |}]; j_src_shootnew := false; j_manual_to := None; j_manual_from := None; j_mapper_hop := None |}]; ps_funcs := [("F0", (FLen BInt8 (1)%Z)); ("F1", (FLen BInt8 (7)%Z))]; ps_manual_to := []; ps_manual_from := []; ps_way := WBoth |}).
 Definition ex8_v : val := (VStruct [("Mapper", (VStruct [])); ("Ratio", (VStr "ab"))]).
+
+(* ex9: the mapper type is embedded BY POINTER in the source type and its methods
+   have value receivers (K_map_mapper_ptr_embedded):
+     src:  type Mapper struct{}; func (Mapper) StrToI8(string) int8; func (Mapper) I8ToStr(int8) string
+           type T struct { *Mapper; ID int; Amt string }
+     dest: type T struct { ID int; Amt int8 } *)
+Definition ex9 : pairspec :=
+(let E : env := [((PSrc, "Mapper"), DStruct []);
+  ((PSrc, "T"), DStruct [{| sf_name := "Mapper"; sf_emb := true; sf_ty := (TPtr (TNamed PSrc "Mapper")); sf_tag := "" |}; {| sf_name := "ID"; sf_emb := false; sf_ty := (TBasic BInt); sf_tag := "" |}; {| sf_name := "Amt"; sf_emb := false; sf_ty := (TBasic BString); sf_tag := "" |}]);
+  ((PDst, "T"), DStruct [{| sf_name := "ID"; sf_emb := false; sf_ty := (TBasic BInt); sf_tag := "" |}; {| sf_name := "Amt"; sf_emb := false; sf_ty := (TBasic BInt8); sf_tag := "" |}])] in
+ let FN : list mfunc := [{| mf_name := "StrToI8"; mf_param := (TBasic BString); mf_result := (TBasic BInt8) |}; {| mf_name := "I8ToStr"; mf_param := (TBasic BInt8); mf_result := (TBasic BString) |}] in
+ {| ps_env := E; ps_fuel := 6; ps_jobs := [{| j_env := E; j_fuel := 6; j_src := "T"; j_dst := "T"; j_funcs := FN; j_ic := false; j_src_acc := []; j_dst_acc := []; j_src_ctor := []; j_dst_ctor := []; j_src_shootnew := false; j_manual_to := None; j_manual_from := None; j_mapper_hop := Some ["Mapper"] |}]; ps_funcs := [("StrToI8", (FLen BInt8 (0)%Z)); ("I8ToStr", (FParity "#x"))]; ps_manual_to := []; ps_manual_from := []; ps_way := WBoth |}).
+
+Definition ex9_d : val := VStruct [("ID", VInt 2); ("Amt", VInt 3)].
+Definition ex9_dirty : val := VStruct [("Mapper", VPtr (VStruct [])); ("ID", VInt 9); ("Amt", VStr "old")].
+Definition ex9_v : val := VStruct [("Mapper", VPtr (VStruct [])); ("ID", VInt 1); ("Amt", VStr "ab")].
+Definition ex9_v_nil : val := VStruct [("Mapper", VNil); ("ID", VInt 1); ("Amt", VStr "ab")].
